@@ -35,29 +35,54 @@ pub fn dst<C: BlsSignatureImpl>(scheme: &str) -> &'static [u8] {
 }
 
 pub fn aggregate_verify<C: BlsSignatureImpl>(scheme: &str, pairs: &[(PkP<C>, Vec<u8>)], sig: SigP<C>) -> BlsResult<()> {
-    let it = pairs.iter().map(|(p, m)| (*p, m.as_slice()));
-    match scheme {
-        "Basic" => <C as BlsSignatureBasic>::aggregate_verify(it, sig),
-        "Aug" => <C as BlsSignatureMessageAugmentation>::aggregate_verify(it, sig),
-        _ => <C as BlsSignaturePop>::aggregate_verify(it, sig),
+    // the functions take any iterator: once an exactly sized one, once a lazy one whose size_hint says nothing
+    let exact = {
+        let it = pairs.iter().map(|(p, m)| (*p, m.as_slice()));
+        match scheme {
+            "Basic" => <C as BlsSignatureBasic>::aggregate_verify(it, sig),
+            "Aug" => <C as BlsSignatureMessageAugmentation>::aggregate_verify(it, sig),
+            _ => <C as BlsSignaturePop>::aggregate_verify(it, sig),
+        }
+    };
+    let lazy = {
+        let it = pairs.iter().filter(|_| true).map(|(p, m)| (*p, m.clone()));
+        match scheme {
+            "Basic" => <C as BlsSignatureBasic>::aggregate_verify(it, sig),
+            "Aug" => <C as BlsSignatureMessageAugmentation>::aggregate_verify(it, sig),
+            _ => <C as BlsSignaturePop>::aggregate_verify(it, sig),
+        }
+    };
+    if exact.is_ok() != lazy.is_ok() {
+        // report as the verdict that differs from the other form: the caller compares with the prediction
+        return if exact.is_ok() { lazy } else { Err(BlsError::InvalidInputs("aggregate_verify: an exactly sized iterator is refused where a lazy iterator over the same pairs is accepted".into())) };
     }
+    exact
 }
 
 /// multi-signature verification: the PoP scheme has its own entry point, the others go through the
 /// accumulated key of BlsMultiKey and the scheme's verify
 pub fn multi_verify<C: BlsSignatureImpl>(scheme: &str, pks: &[PkP<C>], sig: SigP<C>, msg: &[u8]) -> BlsResult<()> {
     match scheme {
-        "Pop" => <C as BlsSignaturePop>::multi_sig_verify(pks.iter().copied(), sig, msg),
+        "Pop" => {
+            let a = <C as BlsSignaturePop>::multi_sig_verify(pks.iter().copied(), sig, msg);
+            let b = <C as BlsSignaturePop>::multi_sig_verify(pks.iter().filter(|_| true).copied(), sig, msg.to_vec());
+            if a.is_ok() != b.is_ok() {
+                return if a.is_ok() { b } else { Err(BlsError::InvalidInputs("multi_sig_verify: exact and lazy iterators over the same keys disagree".into())) };
+            }
+            a
+        }
         s => verify::<C>(s, <C as BlsMultiKey>::from_public_keys(pks.iter().copied()), sig, msg),
     }
 }
 
 /// the three public ways of adding public keys / signatures up
 pub fn key_sums<C: BlsSignatureImpl>(pks: &[PkP<C>]) -> [PkP<C>; 2] {
-    [<C as BlsMultiKey>::from_public_keys(pks.iter().copied()), <C as BlsSignatureCore>::aggregate_public_keys(pks.iter().copied())]
+    let lazy = <C as BlsMultiKey>::from_public_keys(pks.iter().filter(|_| true).copied());
+    let exact = <C as BlsMultiKey>::from_public_keys(pks.iter().copied());
+    [if lazy == exact { exact } else { <PkP<C> as Group>::identity() - exact }, <C as BlsSignatureCore>::aggregate_public_keys(pks.iter().filter(|_| true).copied())]
 }
 pub fn sig_sums<C: BlsSignatureImpl>(sigs: &[SigP<C>]) -> [SigP<C>; 2] {
-    [<C as BlsMultiSignature>::from_signatures(sigs.iter().copied()), <C as BlsSignatureCore>::aggregate_signatures(sigs.iter().copied())]
+    [<C as BlsMultiSignature>::from_signatures(sigs.iter().filter(|_| true).copied()), <C as BlsSignatureCore>::aggregate_signatures(sigs.iter().copied())]
 }
 
 pub fn class<T>(r: &BlsResult<T>) -> (&'static str, &'static str) {
